@@ -24,3 +24,24 @@ Theorem alpha_max_zero_score_en : forall alpha rho (g : list R) m, 0 < rho ->
   forall j x, In x g -> score (subdiff_en alpha rho false) j 0 x = Fin 0.
 Proof. exact L1_plus_L2_null_score_zero. Qed.
 Print Assumptions alpha_max_zero_score_en.
+
+(* at alpha >= alpha_max the coordinate update from the null vector returns exactly 0 -- for EVERY step size
+   (any curvature, also 1/L_j > gamma) and every gamma: regenerated L1 / WeightedL1 / MCP / weighted MCP prox kernels *)
+Require Import SK.Gen.ProxFuncs SK.Lemmas.NullUpdate.
+Theorem null_update_stays_zero_L1 : forall alpha s g : R, 0 <= s -> forall pos j,
+  Rabs g <= alpha -> @L1_prox_1d R _ alpha pos (0 - s * g) s j = Ok 0.
+Proof. exact L1_null_update. Qed.
+Print Assumptions null_update_stays_zero_L1.
+Theorem null_update_stays_zero_WeightedL1 : forall alpha s g : R, 0 <= s -> forall weights pos j wj,
+  get_idx weights j = Ok wj -> Rabs g <= alpha * wj -> @WeightedL1_prox_1d R _ alpha weights pos (0 - s * g) s j = Ok 0.
+Proof. exact WeightedL1_null_update. Qed.
+Print Assumptions null_update_stays_zero_WeightedL1.
+Theorem null_update_stays_zero_MCP : forall alpha s g : R, 0 <= s -> forall gamma pos j,
+  Rabs g <= alpha -> @MCPenalty_prox_1d R _ alpha gamma pos (0 - s * g) s j = Ok 0.
+Proof. exact MCP_null_update. Qed.
+Print Assumptions null_update_stays_zero_MCP.
+Theorem null_update_stays_zero_WeightedMCP : forall alpha s g : R, 0 <= s -> forall gamma weights pos j wj,
+  get_idx weights j = Ok wj -> Rabs g <= alpha * wj ->
+  @WeightedMCPenalty_prox_1d R _ alpha gamma weights pos (0 - s * g) s j = Ok 0.
+Proof. exact WeightedMCP_null_update. Qed.
+Print Assumptions null_update_stays_zero_WeightedMCP.
